@@ -51,7 +51,12 @@ TraceCI ==
                /\ Close(y[1], e.aff[1] * o(a)[1] + e.aff[2] * FS, 20 + tol)
                /\ Close(y[2], e.aff[1] * o(a)[2] + e.aff[2] * FS, 20 + tol)>>,
           <<"C13.scale_equivariant", ~ok \/ \A a \in A : pf(a) => same(e.v_small[K(a)], o(a), 20 + tol)>>,
-          <<"C13.componentwise", ~ok \/ \A a \in A : same(e.v_stack[K(a)], o(a), 2)>>}))
+          <<"C13.componentwise", ~ok \/ \A a \in A : same(e.v_stack[K(a)], o(a), 2)>>,
+          (* metric of shape (2,3) (estimate in column-major / transposed layout): component [1,2]  *)
+          (* carries our replicates, component [0,1] their affine image                             *)
+          <<"C13.componentwise_2d", ~ok \/ \A a \in A :
+               /\ same(e.v_stack2[K(a)][1], o(a), 2)
+               /\ same(e.v_stack2[K(a)][2], e.v_aff[K(a)], 2)>>}))
 
 (* a component without any finite replicate has no limits: NaN, for every method  *)
 TraceAllNaN ==
@@ -59,7 +64,26 @@ TraceAllNaN ==
   /\ Report(Log[l], Failing({<<"C13.no_finite_replicate_gives_nan", Log[l].exc = "" /\ Log[l].all_nan
                                                                     /\ Log[l].other_unaffected>>}))
 
-Next == TraceCI \/ TraceAllNaN
+(* 'bca' BEYOND the pole of the acceleration term (a (z0 + z_alpha) > 1 for one tail: an outlier-   *)
+(* dominated replicate set, the estimate in the opposite tail, a tiny alpha given by table key):    *)
+(* agreement with the documented formula is claimed everywhere - the quotient changes sign there.   *)
+TracePole ==
+  /\ IsEvent("bootci_pole")
+  /\ LET e   == Log[l]
+         th  == e.theta
+         vs  == SortedFinite(th)
+         z0  == Z0(th, e.est)
+         acc == Accel6(th, e.est)
+         zl  == Tables.zl6[e.key]
+         zu  == Tables.z6[e.key]
+         model == <<Quantile6(vs, Level6("bca", z0, acc, zl)), Quantile6(vs, Level6("bca", z0, acc, zu))>>
+         tol == 200 * (vs[Len(vs)] - vs[1]) + 5
+     IN Report(e, Failing({
+          <<"C13.raised", e.exc = "">>,
+          <<"C13.bca_formula", e.exc # "" \/ (Close(e.out[1], model[1], tol) /\ Close(e.out[2], model[2], tol))>>,
+          <<"EXT.pole_case_is_beyond_the_pole", FMul(acc, z0 + zl) > FS \/ FMul(acc, z0 + zu) > FS>>}))
+
+Next == TraceCI \/ TraceAllNaN \/ TracePole
 Spec == Init /\ [][Next]_vars
 AllConsumed == TLCGet("stats").diameter - 1 = Len(Log)
 =============================================================================
